@@ -1,4 +1,5 @@
 // SPIKE: spec port of MPD's SongFilter::ParseExpression (layer 2) and the C11 tree round trip for plain values
+// NOTE: lemma_parse_and_rest needs --rlimit 40 for some seeds (seed 3 at the default limit runs out); split last/non-last cases in the build.
 use vstd::prelude::*;
 verus! {
 
